@@ -1,7 +1,713 @@
-//! C06 — not built yet.
-use lv_common::Ctx;
+//! C06 — Namespace data is sound and complete.
+use celestia_proto::proof::pb::Proof as RawProof;
+use celestia_proto::shwap::{RowNamespaceData as RawRnd, Share as RawShare};
+use celestia_types::consts::appconsts::AppVersion;
+use celestia_types::namespace_data::{NamespaceData, NamespaceDataId};
+use celestia_types::nmt::{Namespace, NamespaceProof, Nmt};
+use celestia_types::row_namespace_data::{RowNamespaceData, RowNamespaceDataId};
+use lv_common::prelude::*;
+use lv_gen::refs::{self, NS, NmtNode};
+use lv_gen::square::{Square, SquareSpec, build_square, ns_bytes, structured_square_strategy, user_ns};
+use lv_gen::sqx::{RawSquare, panic_site};
+use prost::Message;
 
-pub fn run(_ctx: &mut Ctx) {
-    eprintln!("C06: check not built yet");
-    std::process::exit(2);
+const HEIGHT: u64 = 11;
+
+#[derive(Clone, Debug, Serialize, Deserialize)]
+pub enum M {
+    DropShare { row: u16, k: u16 },
+    DupShare { row: u16, k: u16 },
+    SwapShares { row: u16, a: u16, b: u16 },
+    AlterShare { row: u16, k: u16, pos: u16, bit: u8 },
+    /// the share just before / after the namespace's run in that row replaces the first/last share
+    /// (mode 0) or is added in front / at the end (mode 1); optionally with its namespace rewritten
+    NeighbourShare { row: u16, after: bool, rewrite_ns: bool, add: bool },
+    /// any first-quadrant share put in place of share k
+    ForeignShare { row: u16, k: u16, r: u16, c: u16, rewrite_ns: bool },
+    DropRow { i: u16 },
+    DupRow { i: u16 },
+    SwapRows { i: u16, j: u16 },
+    /// proofs of two rows exchanged (shares stay)
+    SwapProofs { i: u16, j: u16 },
+    /// presence proof kept, shares removed
+    ClearShares { row: u16 },
+    /// row replaced by the "namespace outside the root range" absence claim (no shares, empty proof)
+    ClaimOutOfRange { row: u16 },
+    /// row replaced by an absence claim around leaf (base + off) with that leaf's honest single-leaf
+    /// proof and hash; base = first leaf of the namespace (present) or the honest absence leaf
+    AbsenceAt { row: u16, off: i8, keep_shares: bool },
+    /// on an absence row: a share added under the absence proof
+    AbsenceAddShare { row: u16, r: u16, c: u16, rewrite_ns: bool },
+    /// absence proof's leaf hash replaced by the hash of leaf (honest + off), proof untouched
+    AbsenceLeafHash { row: u16, off: i8 },
+    ShiftRange { row: u16, ds: i8, de: i8 },
+    TruncSiblings { row: u16, front: bool, n: u8 },
+    DropSibling { row: u16, i: u16 },
+    DupSibling { row: u16, i: u16 },
+    SwapSiblings { row: u16, i: u16, j: u16 },
+    /// honest inclusion proof of a strict, non-empty sub-range of the namespace's shares with exactly those shares
+    SubRange { row: u16, a: u16, b: u16 },
+    /// honest inclusion proof of the run widened by one neighbour, with that neighbour's share included
+    SuperRange { row: u16, left: bool, rewrite_ns: bool },
+    /// the row's proof replaced by the honest proof for another queried namespace
+    OtherNsProof { row: u16, which: u16, clear: bool },
+    /// the whole answer replaced by the honest answer for another queried namespace
+    OtherNsAnswer { which: u16, rewrite_ns: bool },
+    FlipIgnoreMax { row: u16 },
+    EmptyAnswer,
+}
+
+fn m_strategy() -> impl Strategy<Value = M> {
+    let u = any::<u16>;
+    prop_oneof![
+        2 => (u(), u()).prop_map(|(row, k)| M::DropShare { row, k }),
+        1 => (u(), u()).prop_map(|(row, k)| M::DupShare { row, k }),
+        2 => (u(), u(), u()).prop_map(|(row, a, b)| M::SwapShares { row, a, b }),
+        2 => (u(), u(), u(), 0u8..8).prop_map(|(row, k, pos, bit)| M::AlterShare { row, k, pos, bit }),
+        4 => (u(), any::<bool>(), any::<bool>(), any::<bool>()).prop_map(|(row, after, rewrite_ns, add)| M::NeighbourShare { row, after, rewrite_ns, add }),
+        2 => (u(), u(), u(), u(), any::<bool>()).prop_map(|(row, k, r, c, rewrite_ns)| M::ForeignShare { row, k, r, c, rewrite_ns }),
+        2 => u().prop_map(|i| M::DropRow { i }),
+        2 => u().prop_map(|i| M::DupRow { i }),
+        2 => (u(), u()).prop_map(|(i, j)| M::SwapRows { i, j }),
+        2 => (u(), u()).prop_map(|(i, j)| M::SwapProofs { i, j }),
+        2 => u().prop_map(|row| M::ClearShares { row }),
+        2 => u().prop_map(|row| M::ClaimOutOfRange { row }),
+        4 => (u(), -2i8..=3, any::<bool>()).prop_map(|(row, off, keep_shares)| M::AbsenceAt { row, off, keep_shares }),
+        2 => (u(), u(), u(), any::<bool>()).prop_map(|(row, r, c, rewrite_ns)| M::AbsenceAddShare { row, r, c, rewrite_ns }),
+        2 => (u(), -2i8..=2).prop_map(|(row, off)| M::AbsenceLeafHash { row, off }),
+        3 => (u(), -2i8..=2, -2i8..=2).prop_map(|(row, ds, de)| M::ShiftRange { row, ds, de }),
+        3 => (u(), any::<bool>(), 1u8..4).prop_map(|(row, front, n)| M::TruncSiblings { row, front, n }),
+        1 => (u(), u()).prop_map(|(row, i)| M::DropSibling { row, i }),
+        1 => (u(), u()).prop_map(|(row, i)| M::DupSibling { row, i }),
+        2 => (u(), u(), u()).prop_map(|(row, i, j)| M::SwapSiblings { row, i, j }),
+        4 => (u(), u(), u()).prop_map(|(row, a, b)| M::SubRange { row, a, b }),
+        3 => (u(), any::<bool>(), any::<bool>()).prop_map(|(row, left, rewrite_ns)| M::SuperRange { row, left, rewrite_ns }),
+        3 => (u(), u(), any::<bool>()).prop_map(|(row, which, clear)| M::OtherNsProof { row, which, clear }),
+        2 => (u(), any::<bool>()).prop_map(|(which, rewrite_ns)| M::OtherNsAnswer { which, rewrite_ns }),
+        1 => u().prop_map(|row| M::FlipIgnoreMax { row }),
+        1 => Just(M::EmptyAnswer),
+    ]
+}
+
+fn m_label(m: &M) -> &'static str {
+    match m {
+        M::DropShare { .. } => "mut-drop-share",
+        M::DupShare { .. } => "mut-dup-share",
+        M::SwapShares { .. } => "mut-swap-shares",
+        M::AlterShare { .. } => "mut-alter-share",
+        M::NeighbourShare { .. } => "mut-neighbour-share",
+        M::ForeignShare { .. } => "mut-foreign-share",
+        M::DropRow { .. } => "mut-drop-row",
+        M::DupRow { .. } => "mut-dup-row",
+        M::SwapRows { .. } => "mut-swap-rows",
+        M::SwapProofs { .. } => "mut-swap-proofs",
+        M::ClearShares { .. } => "mut-presence-proof-no-shares",
+        M::ClaimOutOfRange { .. } => "mut-claim-out-of-range",
+        M::AbsenceAt { .. } => "mut-absence-claim",
+        M::AbsenceAddShare { .. } => "mut-absence-proof-with-shares",
+        M::AbsenceLeafHash { .. } => "mut-absence-leaf-moved",
+        M::ShiftRange { .. } => "mut-shift-range",
+        M::TruncSiblings { .. } => "mut-truncate-siblings",
+        M::DropSibling { .. } => "mut-drop-sibling",
+        M::DupSibling { .. } => "mut-dup-sibling",
+        M::SwapSiblings { .. } => "mut-swap-siblings",
+        M::SubRange { .. } => "mut-omission-valid-subrange",
+        M::SuperRange { .. } => "mut-super-range",
+        M::OtherNsProof { .. } => "mut-other-namespace-proof",
+        M::OtherNsAnswer { .. } => "mut-other-namespace-answer",
+        M::FlipIgnoreMax { .. } => "mut-flip-ignore-max",
+        M::EmptyAnswer => "mut-empty-answer",
+    }
+}
+
+#[derive(Clone, Debug, Serialize, Deserialize)]
+pub struct Case {
+    pub square: SquareSpec,
+    pub muts: Vec<M>,
+}
+
+struct Env<'a> {
+    sq: &'a Square,
+    raw: RawSquare,
+    roots: Vec<NmtNode>,
+    nmts: Vec<Option<Nmt>>,
+}
+
+impl Env<'_> {
+    fn nmt(&mut self, r: usize) -> &mut Nmt {
+        if self.nmts[r].is_none() {
+            self.nmts[r] = Some(self.sq.eds.row_nmt(r as u16).expect("row nmt"));
+        }
+        self.nmts[r].as_mut().unwrap()
+    }
+    /// honest inclusion proof for leaves a..b of row r
+    fn range_proof(&mut self, r: usize, a: usize, b: usize) -> RawProof {
+        let (_, p) = self.nmt(r).get_range_with_proof(a..b);
+        RawProof::from(NamespaceProof::from(p))
+    }
+    fn ns_proof(&mut self, r: usize, ns: &Namespace) -> RawProof {
+        let p = self.nmt(r).get_namespace_proof(**ns);
+        RawProof::from(NamespaceProof::from(p))
+    }
+    fn leaf_hash(&self, r: usize, c: usize) -> Vec<u8> {
+        refs::nmt_leaf(&self.raw.ns_at(r, c), self.raw.share(r, c)).to_bytes().to_vec()
+    }
+    /// (first column, count) of the run of `ns` in row r; for an absent namespace (first column with a larger namespace, 0)
+    fn run(&self, r: usize, ns: &[u8; NS]) -> (usize, usize) {
+        let w = self.raw.w;
+        let first = (0..w).find(|&c| &self.raw.ns_at(r, c) >= ns).unwrap_or(w);
+        let n = (first..w).take_while(|&c| &self.raw.ns_at(r, c) == ns).count();
+        (first, n)
+    }
+}
+
+fn with_ns(mut share: Vec<u8>, ns: &[u8; NS], rewrite: bool) -> Vec<u8> {
+    if rewrite && share.len() >= NS {
+        share[..NS].copy_from_slice(ns);
+    }
+    share
+}
+
+fn encode_all(v: &[RawRnd]) -> Vec<u8> {
+    let mut out = Vec::new();
+    for r in v {
+        r.encode_length_delimited(&mut out).unwrap();
+    }
+    out
+}
+
+/// Apply a mutation to the honest answer. `rows[i]` is the EDS row index of `answer[i]`.
+/// Returns None when the mutation is not applicable.
+fn mutate(env: &mut Env, m: &M, ns: &Namespace, nsb: &[u8; NS], rows: &[u16], honest: &[RawRnd], others: &[(Namespace, Vec<u16>, Vec<RawRnd>)]) -> Option<Vec<RawRnd>> {
+    let mut v = honest.to_vec();
+    let n = v.len();
+    let w = env.raw.w;
+    let row_of = |sel: u16| -> Option<usize> { if n == 0 { None } else { Some(pick(sel, n)) } };
+    match m {
+        M::DropShare { row, k } => {
+            let i = row_of(*row)?;
+            if v[i].shares.is_empty() {
+                return None;
+            }
+            let k = pick(*k, v[i].shares.len());
+            v[i].shares.remove(k);
+        }
+        M::DupShare { row, k } => {
+            let i = row_of(*row)?;
+            if v[i].shares.is_empty() {
+                return None;
+            }
+            let k = pick(*k, v[i].shares.len());
+            let s = v[i].shares[k].clone();
+            v[i].shares.insert(k, s);
+        }
+        M::SwapShares { row, a, b } => {
+            let i = row_of(*row)?;
+            let l = v[i].shares.len();
+            if l < 2 {
+                return None;
+            }
+            v[i].shares.swap(pick(*a, l), pick(*b, l));
+        }
+        M::AlterShare { row, k, pos, bit } => {
+            let i = row_of(*row)?;
+            if v[i].shares.is_empty() {
+                return None;
+            }
+            let k = pick(*k, v[i].shares.len());
+            // keep the namespace so that from_raw's namespace check does not shortcut the proof check
+            let p = NS + pick(*pos, v[i].shares[k].data.len() - NS);
+            v[i].shares[k].data[p] ^= 1 << bit;
+        }
+        M::NeighbourShare { row, after, rewrite_ns, add } => {
+            let i = row_of(*row)?;
+            let r = rows[i] as usize;
+            let (c0, cnt) = env.run(r, nsb);
+            let c = if *after { c0 + cnt } else { c0.checked_sub(1)? };
+            if c >= w {
+                return None;
+            }
+            let s = RawShare { data: with_ns(env.raw.share(r, c).clone(), nsb, *rewrite_ns) };
+            if *add || v[i].shares.is_empty() {
+                if *after {
+                    v[i].shares.push(s);
+                } else {
+                    v[i].shares.insert(0, s);
+                }
+            } else if *after {
+                *v[i].shares.last_mut().unwrap() = s;
+            } else {
+                v[i].shares[0] = s;
+            }
+        }
+        M::ForeignShare { row, k, r, c, rewrite_ns } => {
+            let i = row_of(*row)?;
+            if v[i].shares.is_empty() {
+                return None;
+            }
+            let k = pick(*k, v[i].shares.len());
+            let (r, c) = (pick(*r, env.raw.k()), pick(*c, env.raw.k()));
+            v[i].shares[k] = RawShare { data: with_ns(env.raw.share(r, c).clone(), nsb, *rewrite_ns) };
+        }
+        M::DropRow { i } => {
+            let i = row_of(*i)?;
+            v.remove(i);
+        }
+        M::DupRow { i } => {
+            let i = row_of(*i)?;
+            let r = v[i].clone();
+            v.insert(i, r);
+        }
+        M::SwapRows { i, j } => {
+            if n < 2 {
+                return None;
+            }
+            v.swap(pick(*i, n), pick(*j, n));
+        }
+        M::SwapProofs { i, j } => {
+            if n < 2 {
+                return None;
+            }
+            let (i, j) = (pick(*i, n), pick(*j, n));
+            let (pi, pj) = (v[i].proof.clone(), v[j].proof.clone());
+            v[i].proof = pj;
+            v[j].proof = pi;
+        }
+        M::ClearShares { row } => {
+            let i = row_of(*row)?;
+            v[i].shares.clear();
+        }
+        M::ClaimOutOfRange { row } => {
+            let i = row_of(*row)?;
+            v[i].shares.clear();
+            v[i].proof = Some(RawProof { start: 0, end: 0, nodes: vec![], leaf_hash: vec![], is_max_namespace_ignored: true });
+        }
+        M::AbsenceAt { row, off, keep_shares } => {
+            let i = row_of(*row)?;
+            let r = rows[i] as usize;
+            let (c0, _) = env.run(r, nsb);
+            let c = c0 as i64 + *off as i64;
+            if c < 0 || c >= w as i64 {
+                return None;
+            }
+            let c = c as usize;
+            let mut p = env.range_proof(r, c, c + 1);
+            p.leaf_hash = env.leaf_hash(r, c);
+            v[i].proof = Some(p);
+            if !*keep_shares {
+                v[i].shares.clear();
+            }
+        }
+        M::AbsenceAddShare { row, r, c, rewrite_ns } => {
+            let i = row_of(*row)?;
+            if !v[i].shares.is_empty() {
+                return None;
+            }
+            let (r, c) = (pick(*r, env.raw.k()), pick(*c, env.raw.k()));
+            v[i].shares.push(RawShare { data: with_ns(env.raw.share(r, c).clone(), nsb, *rewrite_ns) });
+        }
+        M::AbsenceLeafHash { row, off } => {
+            let i = row_of(*row)?;
+            if !v[i].shares.is_empty() {
+                return None;
+            }
+            let r = rows[i] as usize;
+            let (c0, _) = env.run(r, nsb);
+            let c = c0 as i64 + *off as i64;
+            if c < 0 || c >= w as i64 {
+                return None;
+            }
+            v[i].proof.as_mut()?.leaf_hash = env.leaf_hash(r, c as usize);
+        }
+        M::ShiftRange { row, ds, de } => {
+            let i = row_of(*row)?;
+            let p = v[i].proof.as_mut()?;
+            p.start += *ds as i64;
+            p.end += *de as i64;
+        }
+        M::TruncSiblings { row, front, n: cnt } => {
+            let i = row_of(*row)?;
+            let p = v[i].proof.as_mut()?;
+            if p.nodes.is_empty() {
+                return None;
+            }
+            for _ in 0..(*cnt as usize).min(p.nodes.len()) {
+                if *front {
+                    p.nodes.remove(0);
+                } else {
+                    p.nodes.pop();
+                }
+            }
+        }
+        M::DropSibling { row, i: s } => {
+            let i = row_of(*row)?;
+            let p = v[i].proof.as_mut()?;
+            if p.nodes.is_empty() {
+                return None;
+            }
+            let s = pick(*s, p.nodes.len());
+            p.nodes.remove(s);
+        }
+        M::DupSibling { row, i: s } => {
+            let i = row_of(*row)?;
+            let p = v[i].proof.as_mut()?;
+            if p.nodes.is_empty() {
+                return None;
+            }
+            let s = pick(*s, p.nodes.len());
+            let nd = p.nodes[s].clone();
+            p.nodes.insert(s, nd);
+        }
+        M::SwapSiblings { row, i: a, j: b } => {
+            let i = row_of(*row)?;
+            let p = v[i].proof.as_mut()?;
+            if p.nodes.len() < 2 {
+                return None;
+            }
+            let (a, b) = (pick(*a, p.nodes.len()), pick(*b, p.nodes.len()));
+            p.nodes.swap(a, b);
+        }
+        M::SubRange { row, a, b } => {
+            let i = row_of(*row)?;
+            let r = rows[i] as usize;
+            let (c0, cnt) = env.run(r, nsb);
+            if cnt < 2 {
+                return None;
+            }
+            let x = pick(*a, cnt);
+            let mut y = x + 1 + pick(*b, cnt - x);
+            if x == 0 && y == cnt {
+                y -= 1;
+            }
+            v[i].proof = Some(env.range_proof(r, c0 + x, c0 + y));
+            v[i].shares = (c0 + x..c0 + y).map(|c| RawShare { data: env.raw.share(r, c).clone() }).collect();
+        }
+        M::SuperRange { row, left, rewrite_ns } => {
+            let i = row_of(*row)?;
+            let r = rows[i] as usize;
+            let (c0, cnt) = env.run(r, nsb);
+            if cnt == 0 {
+                return None;
+            }
+            let (a, b) = if *left { (c0.checked_sub(1)?, c0 + cnt) } else { (c0, c0 + cnt + 1) };
+            if b > w {
+                return None;
+            }
+            v[i].proof = Some(env.range_proof(r, a, b));
+            v[i].shares = (a..b).map(|c| RawShare { data: with_ns(env.raw.share(r, c).clone(), nsb, *rewrite_ns) }).collect();
+        }
+        M::OtherNsProof { row, which, clear } => {
+            let i = row_of(*row)?;
+            let r = rows[i] as usize;
+            if others.is_empty() {
+                return None;
+            }
+            let (ons, _, _) = &others[pick(*which, others.len())];
+            if ons == ns {
+                return None;
+            }
+            v[i].proof = Some(env.ns_proof(r, ons));
+            if *clear {
+                v[i].shares.clear();
+            }
+        }
+        M::OtherNsAnswer { which, rewrite_ns } => {
+            if others.is_empty() {
+                return None;
+            }
+            let (ons, _, oans) = &others[pick(*which, others.len())];
+            if ons == ns {
+                return None;
+            }
+            v = oans.clone();
+            for r in v.iter_mut() {
+                for s in r.shares.iter_mut() {
+                    s.data = with_ns(std::mem::take(&mut s.data), nsb, *rewrite_ns);
+                }
+            }
+        }
+        M::FlipIgnoreMax { row } => {
+            let i = row_of(*row)?;
+            let p = v[i].proof.as_mut()?;
+            p.is_max_namespace_ignored = !p.is_max_namespace_ignored;
+        }
+        M::EmptyAnswer => {
+            if n == 0 {
+                return None;
+            }
+            v.clear();
+        }
+    }
+    Some(v)
+}
+
+fn rejected_by_panic(obs: &mut Obs, rec: &str, what: &str, sample: impl FnOnce() -> serde_json::Value) {
+    obs.label("panicked-instead-of-rejecting");
+    let site = format!("panic-site:{}", panic_site(rec));
+    obs.label(&site);
+    obs.sample(&site, sample());
+    obs.note(format!("panic while verifying {what} (never-panics is owned by C16): {rec}"));
+}
+
+fn shares_bytes(r: &RowNamespaceData) -> Vec<Vec<u8>> {
+    r.shares.iter().map(|s| s.to_vec()).collect()
+}
+
+fn raw_json(v: &RawRnd) -> serde_json::Value {
+    json!({
+        "shares": v.shares.len(),
+        "proof": v.proof.as_ref().map(|p| json!({"start": p.start, "end": p.end, "nodes": p.nodes.iter().map(hex::encode).collect::<Vec<_>>(), "leaf_hash": hex::encode(&p.leaf_hash), "ignore_max": p.is_max_namespace_ignored})),
+    })
+}
+
+/// the namespaces queried for a square
+fn queries(raw: &RawSquare) -> Vec<(Namespace, &'static str)> {
+    let k = raw.k();
+    let mut present: Vec<[u8; NS]> = (0..k).flat_map(|r| (0..k).map(move |c| (r, c))).map(|(r, c)| raw.ns_at(r, c)).collect();
+    present.sort();
+    present.dedup();
+    let mut out: Vec<(Namespace, &'static str)> = Vec::new();
+    let push = |ns: Namespace, l: &'static str, out: &mut Vec<(Namespace, &'static str)>| {
+        if !out.iter().any(|(n, _)| *n == ns) {
+            out.push((ns, l));
+        }
+    };
+    for p in &present {
+        if let Ok(ns) = Namespace::from_raw(p) {
+            push(ns, "q-present", &mut out);
+        }
+    }
+    // one absent namespace per gap: successor of each present namespace
+    for (i, p) in present.iter().enumerate() {
+        let mut s = *p;
+        for b in s.iter_mut().rev() {
+            let (v, o) = b.overflowing_add(1);
+            *b = v;
+            if !o {
+                break;
+            }
+        }
+        let free = present.get(i + 1).map(|nx| &s < nx).unwrap_or(true);
+        if free && s > *p && s != refs::PARITY_NS {
+            if let Ok(ns) = Namespace::from_raw(&s) {
+                push(ns, "q-gap", &mut out);
+            }
+        }
+    }
+    push(Namespace::const_v0([0; 10]), "q-below-all", &mut out);
+    push(user_ns(0xffff), "q-high-user", &mut out);
+    push(Namespace::TRANSACTION, "q-reserved", &mut out);
+    push(Namespace::PAY_FOR_BLOB, "q-reserved", &mut out);
+    push(Namespace::PRIMARY_RESERVED_PADDING, "q-reserved", &mut out);
+    push(Namespace::MIN_SECONDARY_RESERVED, "q-reserved", &mut out);
+    push(Namespace::TAIL_PADDING, "q-reserved", &mut out);
+    push(Namespace::PARITY_SHARE, "q-parity", &mut out);
+    out
+}
+
+fn check(case: &Case, obs: &mut Obs) -> Result<(), Failure> {
+    let sq = build_square(&case.square, AppVersion::V3);
+    let raw = RawSquare::from_eds(&sq.eds);
+    let roots = raw.row_roots();
+    let w = raw.w;
+    let mut env = Env { sq: &sq, raw, roots, nmts: (0..w).map(|_| None).collect() };
+    let qs = queries(&env.raw);
+
+    // ---------------- completeness: the square's own answers
+    let mut answers: Vec<(Namespace, Vec<u16>, Vec<RawRnd>)> = Vec::new();
+    let mut brutes: Vec<Vec<(u16, Vec<Vec<u8>>)>> = Vec::new();
+    for (ns, qlabel) in &qs {
+        let nsb = ns_bytes(ns);
+        let brute = env.raw.namespace_rows_with(&env.roots, &nsb);
+        let multi = brute.len() >= 2;
+        let absent_in_range = brute.iter().any(|(_, s)| s.is_empty());
+        let d = digest_of(&(case.square.seed, case.square.ods_log2, &nsb[..]));
+        obs.eval((multi || absent_in_range).then_some(d));
+        obs.label(qlabel);
+        if multi {
+            obs.label("multi-row");
+        }
+        if absent_in_range {
+            obs.label("absence-proof");
+        }
+        if brute.is_empty() {
+            obs.label("out-of-range");
+        }
+        let got = match lv_common::no_panic(|| sq.eds.get_namespace_data(*ns, &sq.dah, HEIGHT)) {
+            Ok(Ok(g)) => g,
+            Ok(Err(e)) => return obs.fail("C06:get-namespace-data-error", format!("get_namespace_data({ns:?}) failed on a valid square of width {w}: {e}")),
+            Err(rec) => return obs.fail("C06:get-namespace-data-panic", format!("get_namespace_data({ns:?}) panicked on a valid square of width {w}: {rec}")),
+        };
+        let got_rows: Vec<u16> = got.iter().map(|(id, _)| id.row_index()).collect();
+        let want_rows: Vec<u16> = brute.iter().map(|(r, _)| *r).collect();
+        obs.check(got_rows == want_rows, "C06:own-data-wrong-rows", || format!("get_namespace_data({ns:?}) returned rows {got_rows:?}, rows whose root range covers the namespace are {want_rows:?} (width {w})"))?;
+        for ((id, data), (r, want)) in got.iter().zip(&brute) {
+            obs.check(id.namespace() == *ns && id.block_height() == HEIGHT, "C06:own-data-wrong-id", || format!("row id {id:?} for query {ns:?}"))?;
+            obs.check(&shares_bytes(data) == want, "C06:own-data-differs-from-scan", || format!("get_namespace_data({ns:?}) row {r}: {} shares, brute-force scan has {} (width {w})", data.shares.len(), want.len()))?;
+            match lv_common::no_panic(|| data.verify(*id, &sq.dah)) {
+                Ok(Ok(())) => {}
+                Ok(Err(e)) => obs.fail("C06:own-data-rejected", format!("row {r} of get_namespace_data({ns:?}) (width {w}) does not verify: {e}"))?,
+                Err(rec) => obs.fail("C06:own-data-verify-panic", format!("row {r} of get_namespace_data({ns:?}) (width {w}) panicked in verify: {rec}"))?,
+            }
+            obs.check(data.proof.is_of_absence() == want.is_empty(), "C06:own-data-proof-kind", || format!("row {r} of get_namespace_data({ns:?}): {} shares but proof of absence = {}", want.len(), data.proof.is_of_absence()))?;
+        }
+        let ndid = NamespaceDataId::new(*ns, HEIGHT).unwrap();
+        let nd = NamespaceData::new(got.iter().map(|(_, d)| d.clone()).collect());
+        match lv_common::no_panic(|| nd.verify(ndid, &sq.dah)) {
+            Ok(Ok(())) => {}
+            Ok(Err(e)) => obs.fail("C06:own-data-rejected", format!("NamespaceData of get_namespace_data({ns:?}) (width {w}, rows {want_rows:?}) does not verify: {e}"))?,
+            Err(rec) => obs.fail("C06:own-data-verify-panic", format!("NamespaceData::verify panicked on the square's own data for {ns:?}: {rec}"))?,
+        }
+        // through the wire form
+        let raws: Vec<RawRnd> = got.iter().map(|(_, d)| RawRnd::from(d.clone())).collect();
+        let rewire: Vec<RawRnd> = raws.iter().map(|r| RawRnd::decode(&r.encode_to_vec()[..]).unwrap()).collect();
+        match lv_common::no_panic(|| NamespaceData::from_raw(ndid, rewire.clone()).and_then(|n| n.verify(ndid, &sq.dah).map(|_| n))) {
+            Ok(Ok(n)) => obs.check(n == nd, "C06:own-data-wire-roundtrip-differs", || format!("NamespaceData for {ns:?} changes through RawRowNamespaceData"))?,
+            Ok(Err(e)) => obs.fail("C06:own-data-rejected", format!("NamespaceData for {ns:?} (width {w}) fails from_raw/verify after the wire round trip: {e}"))?,
+            Err(rec) => obs.fail("C06:own-data-verify-panic", format!("from_raw/verify panicked on the square's own data for {ns:?}: {rec}"))?,
+        }
+        answers.push((*ns, want_rows, raws));
+        brutes.push(brute);
+    }
+
+    // ---------------- soundness: mutated answers
+    for (qi, (ns, _)) in qs.iter().enumerate() {
+        let nsb = ns_bytes(ns);
+        let ndid = NamespaceDataId::new(*ns, HEIGHT).unwrap();
+        let brute = &brutes[qi];
+        let (_, rows, honest) = answers[qi].clone();
+        let honest_enc = encode_all(&honest);
+        for m in &case.muts {
+            let Some(mutated) = mutate(&mut env, m, ns, &nsb, &rows, &honest, &answers) else {
+                obs.label("mut-not-applicable");
+                continue;
+            };
+            let enc = encode_all(&mutated);
+            if enc == honest_enc {
+                obs.label("mut-noop");
+                continue;
+            }
+            let ml = m_label(m);
+            obs.label(ml);
+            let d = digest_bytes(&enc) ^ digest_bytes(&nsb);
+            let cross = match m {
+                M::NeighbourShare { .. } | M::ForeignShare { .. } | M::SuperRange { .. } | M::OtherNsAnswer { .. } | M::AbsenceAddShare { .. } => true,
+                _ => false,
+            };
+            if cross {
+                obs.label("cross-namespace-substitution");
+            }
+            // (A) the whole answer
+            obs.eval(Some(d));
+            let res = lv_common::no_panic(|| {
+                let nd = NamespaceData::from_raw(ndid, mutated.clone()).ok()?;
+                nd.verify(ndid, &sq.dah).ok()?;
+                Some(nd)
+            });
+            match res {
+                Ok(Some(nd)) => {
+                    obs.label("mutated-answer-accepted");
+                    obs.label(&format!("accepted:{ml}"));
+                    let got: Vec<Vec<Vec<u8>>> = nd.rows().iter().map(shares_bytes).collect();
+                    let want: Vec<Vec<Vec<u8>>> = brute.iter().map(|(_, s)| s.clone()).collect();
+                    if got != want {
+                        obs.fail(
+                            "C06:accepted-wrong-namespace-data",
+                            format!(
+                                "NamespaceData::verify accepted data for {ns:?} (width {w}) that differs from the square: rows covering the namespace {rows:?} hold {:?} shares, accepted answer holds {:?}; mutation {m:?}",
+                                want.iter().map(|s| s.len()).collect::<Vec<_>>(),
+                                got.iter().map(|s| s.len()).collect::<Vec<_>>()
+                            ),
+                        )?;
+                    }
+                }
+                Ok(None) => {}
+                Err(rec) => rejected_by_panic(obs, &rec, ml, || json!({"mutation": format!("{m:?}"), "namespace": hex::encode(nsb), "rows": rows, "answer": mutated.iter().map(raw_json).collect::<Vec<_>>()})),
+            }
+            // (B) each row on its own: under its own row id, under the next covered row's id, and
+            // under the id of a row whose root range does not cover the namespace
+            let uncovered: Option<u16> = (0..w as u16).rev().find(|r| !rows.contains(r));
+            for (i, rr) in mutated.iter().enumerate() {
+                if rows.is_empty() {
+                    break;
+                }
+                for shift in [0usize, 1, 2] {
+                    if shift == 1 && rows.len() < 2 {
+                        continue;
+                    }
+                    let target = match (shift, uncovered) {
+                        (2, Some(u)) => {
+                            obs.label("row-checked-under-uncovered-row-id");
+                            u
+                        }
+                        (2, None) => continue,
+                        _ => rows[(i + shift) % rows.len()],
+                    };
+                    let rid = RowNamespaceDataId::new(*ns, target, HEIGHT).unwrap();
+                    obs.eval(Some(d ^ ((i as u64 + 1) << 32) ^ ((target as u64 + 1) << 48)));
+                    let res = lv_common::no_panic(|| {
+                        let r = RowNamespaceData::from_raw(rid, rr.clone()).ok()?;
+                        r.verify(rid, &sq.dah).ok()?;
+                        Some(r)
+                    });
+                    match res {
+                        Ok(Some(r)) => {
+                            // a row whose root range does not cover the namespace contributes no
+                            // namespace data at all (with the ignore-max rule that includes the parity
+                            // half of the upper rows for PARITY): only "nothing" may be accepted there
+                            let want = if shift == 2 { Vec::new() } else { env.raw.row_namespace_shares(target as usize, &nsb) };
+                            if shares_bytes(&r) != want {
+                                obs.fail(
+                                    "C06:accepted-wrong-row-namespace-data",
+                                    format!(
+                                        "RowNamespaceData::verify accepted {} shares for {ns:?} in row {target} (width {w}) but that row holds {} shares of the namespace (or different ones); mutation {m:?}, element {i}",
+                                        r.shares.len(),
+                                        want.len()
+                                    ),
+                                )?;
+                            }
+                        }
+                        Ok(None) => {}
+                        Err(rec) => rejected_by_panic(obs, &rec, ml, || json!({"mutation": format!("{m:?}"), "namespace": hex::encode(nsb), "row": target, "element": raw_json(rr)})),
+                    }
+                }
+            }
+        }
+    }
+    Ok(())
+}
+
+pub fn run(ctx: &mut Ctx) {
+    ctx.assume("the block is an EDS produced by ExtendedDataSquare::from_ods from a generated structured ODS; its DAH by DataAvailabilityHeader::from_eds (roots cross-checked against an independent NMT in C08)");
+    ctx.assume("ground truth = brute-force scan of the raw square bytes; 'rows whose root range covers the namespace' is decided on reference NMT roots (lv_gen::refs, sha2 only)");
+    ctx.assume("a panic while verifying an adversarial answer counts as rejection here and is reported for C16 (label panic-site:*)");
+    ctx.essential(&[
+        "absence-proof",
+        "multi-row",
+        "cross-namespace-substitution",
+        "q-present",
+        "q-gap",
+        "q-parity",
+        "q-reserved",
+        "out-of-range",
+        "mut-omission-valid-subrange",
+        "mut-absence-claim",
+        "mut-drop-row",
+        "mut-swap-proofs",
+        "mut-presence-proof-no-shares",
+        "mut-absence-proof-with-shares",
+        "mut-absence-leaf-moved",
+        "mut-truncate-siblings",
+        "mut-shift-range",
+        "mut-other-namespace-proof",
+    ]);
+    let hi = ctx.tier.pick(4, 5); // ODS width 1..16 quick, ..32 thorough
+    let cases = ctx.tier.pick(3000, 16000);
+    ctx.proptest(
+        "namespace-data",
+        "per structured square: queries = every present namespace (incl. reserved / tail padding), one absent namespace per gap, below-all, high user, TX, PFB, primary padding, min secondary reserved, tail padding, PARITY. Completeness: eds.get_namespace_data verifies per row and as NamespaceData (also after the wire round trip), its rows are exactly the rows whose reference root range covers the namespace and its shares equal a brute-force scan. Soundness: 14-24 mutations per query (share drop/dup/swap/alter, neighbouring-namespace share with or without rewritten namespace, foreign share, row drop/dup/swap, proofs swapped between rows, presence proof without shares, absence claims built from honest single-leaf proofs, absence proof with shares, moved absence leaf, shifted range, truncated/dropped/duplicated/swapped siblings, honest proof of a strict sub-range, widened range, proof or answer of another namespace, ignore-max flag, empty answer) through RawRowNamespaceData -> from_raw -> verify, whole answer and each row separately (under its own id, the next covered row's id and the id of a row not covering the namespace): accepted => shares equal the brute-force scan. Non-trivial = multi-row or absent-in-range honest query, or any effective mutation (distinct by namespace + encoded answer + target row)",
+        cases,
+        move || (structured_square_strategy(0, hi), prop::collection::vec(m_strategy(), 14..24)).prop_map(|(square, muts)| Case { square, muts }),
+        check,
+    );
 }
